@@ -520,6 +520,12 @@ func (x *Exec) atLoopHead(st *State, la *loopAnalysis, head, from *ssa.BasicBloc
 			g := x.evalBool(env, c.Expr)
 			x.oblige(st, "inv-preserve", label+":"+clauseLabel(c, i), g, c.Text, head.Instrs[0], c.Props)
 		}
+		if le := st.InLoop[head]; le != nil && le.snap != nil && len(spec.Steps) > 0 {
+			env.Head = le.snap
+			tmp := *le.snap
+			tmp.Frame = st.Frame
+			env.HeadVars = x.envAt(&tmp).Vars
+		}
 		for i, c := range spec.Steps {
 			g := x.evalBool(env, c.Expr)
 			x.oblige(st, "step", label+":"+clauseLabel(c, i), g, c.Text, head.Instrs[0], c.Props)
@@ -553,7 +559,7 @@ func (x *Exec) atLoopHead(st *State, la *loopAnalysis, head, from *ssa.BasicBloc
 		x.runGhosts(st, env, fmt.Sprintf("loop:%d", ord))
 	}
 	le := &loopEntry{}
-	if f.Fn == x.Fn && f.Caller == nil && x.FC != nil && !x.frame().all {
+	if f.Fn == x.Fn && f.Caller == nil && x.FC != nil && (!x.frame().all || len(spec.Steps) > 0) {
 		le.snap = st.snapshot()
 	}
 	if spec.Decreases != nil {
